@@ -317,6 +317,48 @@ def cli_paths(texts):
             else:
                 k = "cli:same-as-printer"
             hist[k] = hist.get(k, 0) + 1
+        # the other routes of the command: several files in one invocation (stdout carries them in order), a directory
+        # (its files are rewritten in place) and -r (sub-directories too); groups of 3 texts that format to something else
+        # than themselves, so that an untouched file is noticed
+        pool = []
+        for s in texts:
+            r = srv.req({"op": "fmt", "src": s})
+            if "ok" in r and r["ok"].get("utf8") is not None and r["ok"]["utf8"] != s:
+                pool.append((s, r["ok"]["utf8"]))
+        for g in range(0, min(len(pool), 30) - 2, 3):
+            grp = pool[g:g + 3]
+            dd = os.path.join(d, "grp%d" % g)
+            os.makedirs(os.path.join(dd, "sub", "deeper"))
+            names = ["a.ucg", os.path.join("sub", "b.ucg"), os.path.join("sub", "deeper", "c.ucg")]
+            for (src, _), n in zip(grp, names):
+                with open(os.path.join(dd, n), "w") as f:
+                    f.write(src)
+            bad = None
+            rc, out, err = core.run_ucg(["fmt"] + names, cwd=dd)
+            if rc != 0 or out.decode("utf-8", "replace") != "".join(w for _, w in grp):
+                bad = ("cli-several-files-differ-from-printer", {"rc": rc, "stdout": out.decode("utf-8", "replace"), "printer": [w for _, w in grp]})
+            if bad is None:
+                # a directory without sub-directories (with one, and without -r, the command gives up with "Is a directory":
+                # seen, not judged — the property speaks of the text that is written)
+                flat = os.path.join(dd, "flat")
+                os.makedirs(flat)
+                for k2, (src, _) in enumerate(grp):
+                    with open(os.path.join(flat, "f%d.ucg" % k2), "w") as f:
+                        f.write(src)
+                rc, out, err = core.run_ucg(["fmt", "flat"], cwd=dd)
+                got = [open(os.path.join(flat, "f%d.ucg" % k2), newline="").read() for k2 in range(len(grp))]
+                if rc != 0 or got != [w for _, w in grp]:
+                    bad = ("cli-directory-differs-from-printer", {"rc": rc, "files": got, "printer": [w for _, w in grp], "stderr": err.decode("utf-8", "replace")[-300:]})
+                shutil.rmtree(flat)
+            if bad is None:
+                rc, out, err = core.run_ucg(["fmt", "-r", "."], cwd=dd)
+                got = [open(os.path.join(dd, n), newline="").read() for n in names]
+                if rc != 0 or got != [w for _, w in grp]:
+                    bad = ("cli-recursive-differs-from-printer", {"rc": rc, "files": got, "printer": [w for _, w in grp], "stderr": err.decode("utf-8", "replace")[-300:]})
+            k = "cli-routes:" + ("same-as-printer" if bad is None else "DIFFERS")
+            hist[k] = hist.get(k, 0) + 1
+            if bad:
+                viol.append(("cli-routes", "\n//----\n".join(src for src, _ in grp), bad[0], bad[1]))
     finally:
         srv.close()
         shutil.rmtree(d, ignore_errors=True)
@@ -326,8 +368,8 @@ def cli_paths(texts):
 def replay(case):
     srv = core.Server()
     try:
-        if case["kind"] == "cli":
-            part = cli_paths([case["src"]])
+        if case["kind"] in ("cli", "cli-routes"):
+            part = cli_paths(case["src"].split("\n//----\n") if case["kind"] == "cli-routes" else [case["src"]])
             return not part["viol"], {"violations": part["viol"]}
         oc, v = check_text(srv, case["src"])
         return v is None, {"outcome": oc, "detail": v}
